@@ -414,6 +414,8 @@ def instantiate(shape, t, rng_vals, where=()):
     if k == "F":
         m = shape["mode"]
         tt = float(t)
+        if m == "lin" and not math.isfinite(tt):
+            return F(shape["a"] * tt + shape["b"])          # an infinite abscissa: float arithmetic (inf, or nan for a = 0)
         if m == "lin":
             # the exact line, rounded once (identical to a*t+b in floats for dyadic t)
             return F(float(Fraction(shape["a"]) * Fraction(tt) + Fraction(shape["b"])))
@@ -461,6 +463,12 @@ def gen_abscissae(rng, n, kind):
         while len(out) < n:
             out.add(rng.uniform(-10, 10) * 10 ** rng.randint(-2, 2))
         return list(out)
+    if kind == "inf":
+        # one or both infinities among dyadic abscissae: members of the order like any other float (C20_*_f64 need no finiteness)
+        k = 1 if n == 2 or rng.random() < 0.5 else 2
+        vals = rng.sample([x / 4.0 for x in range(-20, 21)], n - k) + rng.sample([math.inf, -math.inf], k)
+        rng.shuffle(vals)
+        return vals
     if kind == "negzero":
         vals = rng.sample([x / 4.0 for x in range(-20, 21) if x != 0], n - 1) + [-0.0]
         rng.shuffle(vals)
@@ -478,7 +486,7 @@ def gen_abscissae(rng, n, kind):
 def gen_series(rng, thorough):
     opts = {"tuples": rng.random() < 0.12, "private": rng.random() < 0.15, "dicts": rng.random() < 0.06}
     n = rng.choice([2, 2, 3, 3, 3, 4, 4, 5, 6, 7] + ([8, 9] if thorough else []))
-    akind = rng.choice(["dyadic"] * 10 + ["arbitrary"] * 4 + ["int"] * 2 + ["mixed"] * 2 + ["dup"] * 1 + ["negzero"] * 1)
+    akind = rng.choice(["dyadic"] * 10 + ["arbitrary"] * 4 + ["int"] * 2 + ["mixed"] * 2 + ["dup"] * 1 + ["negzero"] * 1 + ["inf"] * 1)
     var = rng.choice(VAR_NAMES)
     nf = rng.randint(1, 4)
     names = rng.sample(OBJ_NAMES + F_NAMES[:3], nf)
@@ -620,7 +628,10 @@ def gen_series(rng, thorough):
 
 
 def gen_qvals(rng, ts, full):
-    fs = sorted(float(t) for t in ts)
+    fs = sorted(float(t) for t in ts if math.isfinite(float(t)))
+    has_inf = len(fs) < len(ts)
+    if len(fs) < 2:
+        fs = sorted(fs + [(fs[0] if fs else 0.0) + 1.0, (fs[0] if fs else 0.0) - 1.0])
     lo, hi = fs[0], fs[-1]
     qvals = []
     node = rng.choice(ts)
@@ -640,8 +651,10 @@ def gen_qvals(rng, ts, full):
         qvals.append(("near-node", math.nextafter(float(node), math.inf if rng.random() < 0.5 else -math.inf)))
     if full and rng.random() < 0.2:
         qvals.append(("int-query", int(math.floor((lo + hi) / 2))))
-    if full and rng.random() < 0.06:
+    if full and rng.random() < (0.8 if has_inf else 0.06):
         qvals.append(("inf-query", rng.choice([math.inf, -math.inf])))
+    if full and rng.random() < 0.05:
+        qvals.append(("negzero-query", -0.0))
     if full and rng.random() < 0.04:
         qvals.append(("nan-query", math.nan))
     return qvals
@@ -750,6 +763,20 @@ def in_quantifier(s, q):
     qpath = tuple(q["path"])
     insts, keys, uniform, distinct = series_info(s, q["perm"], qpath)
     return bool(uniform and distinct and len(insts) >= 2 and finite(num_of(q["value"])) and all(finite(k) for k in keys))
+
+
+def theorem_hypotheses(s, q):
+    """The hypotheses of the binary64 theorems (Props.C20_*_f64), computed here with Python's own == and isnan:
+    every abscissa and the value are numbers, none is a NaN, the abscissae are pairwise different under ==
+    (so -0.0 and 0.0, or 1 and 1.0, are the same abscissa).  Infinite values are allowed."""
+    insts = [s["insts"][j] for j in q["perm"]]
+    keys = [num_of(t_get(t, tuple(q["path"]))) for t in insts]
+    v = num_of(q["value"])
+    if v is None or None in keys:
+        return False
+    if any(isinstance(x, float) and math.isnan(x) for x in keys + [v]):
+        return False
+    return all(keys[i] != keys[j] for i in range(len(keys)) for j in range(i))
 
 
 def oracle_query(s, q, r):
@@ -965,10 +992,10 @@ def ccase(c, r):
                     spl.setdefault((tuple(req["xs"]), tuple(req["ys"]), req["v"]), o["spl"])
             out = coutcome(rq)
             idx = outs.setdefault(out, len(outs))
-            qs.append("(Query %s %s %s (%s) %s %s)" % (
+            qs.append("(Query %s %s %s (%s) %s %s %s)" % (
                 clist([cnat(i) for i in q["perm"]]), "Linear" if q["method"] == "linear" else "Spline",
                 clist([cstr(k) for k in q["path"]]), ctree(q["value"]), cnat(idx),
-                "true" if in_quantifier(c, q) else "false"))
+                "true" if in_quantifier(c, q) else "false", "true" if theorem_hypotheses(c, q) else "false"))
         lt = clist(["(%s, %s, (%s, %s))" % (cfl(k[0]), cfl(k[1]), cfloat(unhex(v[0])), cfloat(unhex(v[1]))) for k, v in lin.items()])
         st = clist(["(%s, %s, %s, %s)" % (cfl(k[0]), cfl(k[1]), cfloat(unhex(k[2])), cfloat(unhex(v))) for k, v in spl.items()])
         return "CSeries %s\n %s\n %s\n %s\n %s" % (clist(["(%s)" % ctree(t) for t in c["insts"]]), lt, st,
@@ -1038,8 +1065,14 @@ def run(ctx):
         "(non-mutation of inputs is checked on the implementation by snapshots of values and object identities)",
     ]
     ctx.assumptions = [
-        "order theorems assume the abscissa comparison is a total order whose equivalence is the dict's key equality; proved for Z and Q, "
-        "decided by vm_compute on the abscissae and query value of every in-quantifier binary64 run (hyps_F in check_case)",
+        "order theorems assume the abscissa comparison is a total preorder whose equivalence is the dict's key equality, on a carrier "
+        "containing the abscissae and the query value; PROVED for Z, Q (carrier = everything) and for binary64 (carrier = non-NaN floats, "
+        "from the specification axioms FloatAxioms.eqb_spec / leb_spec of the Coq standard library: coq/Common/Float64Order.v). "
+        "The only remaining hypotheses of the binary64 theorems -- no NaN among the abscissae, pairwise different abscissae (hyps_F also requires a non-NaN value) -- "
+        "are decided by vm_compute on every run (hyps_F) and must EQUAL the harness's own evaluation with Python's == / isnan; "
+        "C20_run_hypotheses_f64 proves that hyps_F = true implies the theorems' hypotheses",
+        "NaN abscissae are outside theorems and correspondence: the model's dict finds keys by == only, CPython also by object identity, "
+        "and Python's sorted() (timsort with <) is modelled by an insertion sort with <=, which agree only on totally ordered keys",
         "spline exactness on linear data is a hypothesis on the external routine (C20_trend is parametric in it); least squares is proved exact over Q",
         "binary64 results of linregress/CubicSpline enter the model as oracle values; exact least squares is tied to them at relative tolerance 1e-9",
     ]
@@ -1122,6 +1155,17 @@ def run(ctx):
         for q, rq in zip(c["queries"], r["queries"]):
             key = {"insts": c.get("gen_insts", c["insts"]), "perm": q["perm"], "method": q["method"], "value": q["value"], "path": q["path"]}
             ctx.count_case(key, query_nontrivial(c, q, rq), "%s/%s/%s" % (q["method"], q.get("qkind"), rq["kind"]))
+            hyp = theorem_hypotheses(c, q)
+            ctx.hist("f64_theorem_hypotheses", "%s,%s" % ("hold" if hyp else "fail", "in-quantifier" if in_quantifier(c, q) else "outside"))
+            if hyp:
+                ks_ = [num_of(t_get(c["insts"][j], tuple(q["path"]))) for j in q["perm"]]
+                vq = num_of(q["value"])
+                spec = sorted({nm for nm, test in (("inf-abscissa", any(math.isinf(float(k)) for k in ks_)),
+                                                   ("negzero-abscissa", any(isinstance(k, float) and k == 0 and math.copysign(1, k) < 0 for k in ks_)),
+                                                   ("inf-query", math.isinf(float(vq))),
+                                                   ("signed-zero-hit", isinstance(vq, float) and vq == 0 and any(
+                                                       k == 0 and math.copysign(1, float(k)) != math.copysign(1, vq) for k in ks_))) if test})
+                ctx.hist("f64_carrier_features", ",".join(spec) or "finite-nonzero")
             ctx.oracle["cases"] += 1
             fails = oracle_query(c, q, rq)
             if feats.get("corpus") in PINNED:
@@ -1185,14 +1229,22 @@ MANIFEST = {
             "bit-exact vm_compute correspondence of the binary64 instance (scipy values as oracle tables) with "
             "LinearInterpolator/SplineInterpolator on generated series (two interpolation variables interleaved and repeated on one "
             "interpolator object, instances built by ModelInstance or by a Collection, frozen, aliased components, numpy.float64 and "
-            "0-d array leaves, inf/nan queries), the theorems' hypotheses (order axioms, distinct abscissae) decided by vm_compute on "
-            "the finite carrier of every in-quantifier run, and a direct property oracle (identity at nodes, exact least squares, "
+            "0-d array leaves, inf/nan/-0.0 queries, -0.0 and infinite abscissae); the order / known-point / per-leaf / definedness "
+            "theorems are also stated and PROVED for that binary64 instance (C20_*_f64: comparisons PrimFloat.leb / PrimFloat.eqb, "
+            "hypothesis on the numbers = no NaN among the abscissae -- none on the query value; C20_order_laws_f64, from the FloatAxioms "
+            "specification axioms of the Coq library); that hypothesis (for the value too) and `distinct abscissae` are decided by vm_compute on every run (hyps_F, "
+            "C20_run_hypotheses_f64) and must equal the harness's own evaluation with Python's == / isnan; and a direct property "
+            "oracle (identity at nodes, exact least squares, "
             "leaf types, variable, non-mutation and non-sharing by value-and-identity snapshots, order independence)",
     "note": "Trusted: Coq kernel + vm_compute, primitive floats, the translator (pyexpr2coq.py + the statement/return-form readers in "
             "c20.py), the tree abstraction of live objects. The order/known-point/per-leaf theorems are generic in the number type "
-            "under order axioms proved for Z and Q; for binary64 those axioms are not proved (they need the IEEE specification "
-            "axioms of the Coq library, which this development does not use) but checked by computation on the abscissae and query "
-            "of each run. scipy linregress/CubicSpline are oracles: exact least squares is tied to linregress at 1e-9 relative; for "
+            "under order laws relativised to a carrier, proved for Z and Q (carrier = everything) and for binary64 (carrier = non-NaN "
+            "floats; depends on FloatAxioms.eqb_spec / leb_spec, specification axioms declared by the Coq standard library, through "
+            "coq/Common/Float64Order.v); the laws are additionally re-evaluated by computation on the abscissae and query of each run "
+            "(laws_F, a redundant cross-check of the theorem against the kernel's float primitives). NaN abscissae stay outside "
+            "theorems and correspondence (C20_defined_f64_nan_refuted, C20_sorted_abscissae_nan_refuted show the hypothesis is "
+            "needed in the model; CPython's dict also finds a NaN key by object identity and sorted() is timsort with <, neither "
+            "modelled). scipy linregress/CubicSpline are oracles: exact least squares is tied to linregress at 1e-9 relative; for "
             "the spline it is the identity with scipy's default CubicSpline that is pinned bit-exactly (another spline satisfying the "
             "property text would need the oracle table changed), and exactness on linear data is a hypothesis checked at a "
             "condition-number-scaled tolerance. Non-mutation of inputs is checked on the implementation only (the tree model is "
@@ -1200,6 +1252,6 @@ MANIFEST = {
             "inside tuples are not interpolated (no small safe repair: shared walk). Repaired in /repo and pinned by regression "
             "obligations + theorems C20_variable_code / C20_leaf_code / C20_dict_code: discarded final replacement, spline results "
             "as 0-d arrays, floats below dict-valued attributes (query raised). Not covered: "
-            "CovarianceInterpolator, NaN abscissae, int abscissae beyond 2^53.",
+            "CovarianceInterpolator, NaN abscissae, int abscissae beyond 2^53 (Python compares int with float exactly, the model through Z2F).",
     "technique": "machine-checked proof in Coq (translator-regenerated model) + vm_compute correspondence",
 }
